@@ -779,6 +779,20 @@ def check_C18(ck):
         return None
     impl_out, model_out, nbad = correspondence(ck, scripts, "C18: enumeration, size, emptiness and every link field after every operation",
                                                oracle=False, extra_oracle=list_oracle)
+    # the bodies clang parsed from static_list.hpp on this run, executed by Mini.exec (driver --src), against the
+    # compiled header: validates the translator and the semantics given to its constructors, and gives the
+    # failing history when the proofs about the translated source no longer check
+    src_out = verif.run_model(scripts, mode="--src")
+    src_bad = verif.compare(scripts, impl_out, src_out)
+    if src_bad and not nbad:
+        found = list_oracle(src_bad, dict(scripts), impl_out)
+        name, i, a, b = src_bad[0][:4]
+        payload = {"property": "C18", "kind": "the source of static_list.hpp as translated on this run (Mini.exec) and the compiled header differ",
+                   "script": dict(scripts)[name], "first_difference": {"line": i, "implementation": a, "translated_source": b},
+                   "seed": ck.seed}
+        if found:
+            payload["failing_input"] = {"history": found[1], "observed": found[2][2], "expected": found[2][3]}
+        ck.violation(verif.write_replay("C18", "src-" + name, payload), bool(found))
     kinds = {"first": 0, "middle": 0, "last": 0, "only": 0}
     for seq in full:
         cur = []
@@ -791,7 +805,10 @@ def check_C18(ck):
                 cur.append(n)
             else:
                 cur = []
-    ck.coverage = proof_coverage(ck, ["C18"], {
+    ck.coverage = proof_coverage(ck, ["C18", "C18src"], {
+        "translated_source": {"file": "lean/Yomm2/Generated/StaticListSrc.lean (tools/cpp2lean.py, from clang's AST of the header)",
+                              "histories_run_on_translated_source": len(scripts), "differences_from_implementation": len(src_bad),
+                              "translator_messages": getattr(ck.lean, "notes", [])},
         "evaluations": len(scripts),
         "distinct_nontrivial": len({repr(s) for s in full if any(o == "lremove" for o, _ in s)}),
         "rule": "histories of push / remove / clear over a pool of static nodes: every valid sequence up to the tier's length over 3 and 4 nodes "
@@ -803,7 +820,9 @@ def check_C18(ck):
         "samples": [{"name": n, "script": ls[:30]} for n, ls in scripts[-2:]],
     })
     ck.assumptions = ["registration nodes live in zero-initialised static storage (documented requirement of the library)",
-                      "the heap model identifies nodes by number; pointer identity of distinct static objects is assumed"]
+                      "the heap model identifies nodes by number; pointer identity of distinct static objects is assumed",
+                      "the meaning of the translated constructs is Mini.exec (lean/Yomm2/MiniCpp.lean): null dereference = fault, "
+                      "assignment evaluates its right operand first, a while loop runs on fuel; clang's parse of the header is trusted"]
 
 
 check_C18.needs_hdyn = True
